@@ -119,6 +119,12 @@ def build(harness, flavours):
         fcntl.flock(lk, fcntl.LOCK_EX)
         p = subprocess.run(["make", "-C", VERIF, "-j%d" % NCPU, "--no-print-directory"] + extra + targets,
                            stdout=subprocess.PIPE, stderr=subprocess.STDOUT, text=True)
+        if p.returncode != 0:
+            # a compiler killed under memory pressure (several checks and builds at once) is not a
+            # property of the tree: one retry with little parallelism; a real compile error fails again
+            log("build failed once, retrying with -j4:\n" + p.stdout[-1500:])
+            p = subprocess.run(["make", "-C", VERIF, "-j4", "--no-print-directory"] + extra + targets,
+                               stdout=subprocess.PIPE, stderr=subprocess.STDOUT, text=True)
     if p.returncode != 0:
         log(p.stdout[-6000:])
         log("BUILD-FAILURE")
